@@ -128,12 +128,12 @@ def judge(events, module="Trace", cfg="Trace", shards=8, timeout=1200, scratch=N
             shutil.rmtree(scratch, ignore_errors=True)
 
 
-def emit(module, cfg, out_path, env=None, workers=8, timeout=900, scratch=None):
+def emit(module, cfg, out_path, env=None, workers=8, timeout=900, scratch=None, seed=0):
     """Run an MC config with CGV_EMIT=1: every generated transition is printed by the spec as one JSON line
     (PrintT(ToJson(..))); the decoded lines are written to out_path.  Returns TLC statistics + line count."""
     e = {"CGV_EMIT": "1"}
     e.update(env or {})
-    r = run_tlc(module, cfg, workers=workers, timeout=timeout, env=e, scratch=scratch)
+    r = run_tlc(module, cfg, workers=workers, timeout=timeout, env=e, scratch=scratch, extra=["-seed", str(seed + 1)])
     n = bad = 0
     with open(out_path, "w") as f:
         for line in r["out"].splitlines():
